@@ -11,6 +11,7 @@ package props
 import (
 	"encoding/json"
 	"fmt"
+	sdktx "github.com/cosmos/cosmos-sdk/types/tx"
 	sdkvesting "github.com/cosmos/cosmos-sdk/x/auth/vesting/types"
 	vestingtypes "github.com/haqq-network/haqq/x/vesting/types"
 	"math/big"
@@ -364,6 +365,36 @@ func runC03(st *ev.Stats, c C03Case) string {
 		add("gas-1", func() ([]byte, error) { return mutate(func(x *txb.Cosmos) { x.Gas-- }, nil) })
 		add("fee-granter", func() ([]byte, error) { return mutate(func(x *txb.Cosmos) { x.FeeGranter = other.Addr }, nil) })
 		add("fee-payer", func() ([]byte, error) { return mutate(func(x *txb.Cosmos) { x.FeePayer = other.Addr }, nil) })
+		add("fee-payer-with-padded-signature", func() ([]byte, error) {
+			// somebody else is named as fee payer (which makes it a required signer) and the signature list is padded
+			// with a signature that is not that account's: the count check passes, nobody signed for the payer
+			x := cb
+			x.Msgs = append([]sdk.Msg{}, cb.Msgs...)
+			x.ExtOpts = append([]*codectypes.Any{}, ext0...)
+			x.FeePayer = other.Addr
+			b := x.Builder()
+			_, otherSeq := txb.AccInfo(n.Ctx(), n.App, other.Addr)
+			junk := signing.SignatureV2{PubKey: other.Priv.PubKey(), Sequence: otherSeq,
+				Data: &signing.SingleSignatureData{SignMode: sigs0[0].Data.(*signing.SingleSignatureData).SignMode, Signature: append([]byte{}, sigs0[0].Data.(*signing.SingleSignatureData).Signature...)}}
+			if err := b.SetSignatures(sigs0[0], junk); err != nil {
+				return nil, err
+			}
+			return txb.TxConfig().TxEncoder()(b.GetTx())
+		})
+		add("fee-payer-with-padded-raw-signature", func() ([]byte, error) {
+			// the same, but only the raw signature list is padded: one signer info, two raw signatures (the stateless
+			// count check compares the raw list with the required signers)
+			bz, err := mutate(func(x *txb.Cosmos) { x.FeePayer = other.Addr }, nil)
+			if err != nil {
+				return nil, err
+			}
+			var raw sdktx.TxRaw
+			if err := raw.Unmarshal(bz); err != nil {
+				return nil, err
+			}
+			raw.Signatures = append(raw.Signatures, []byte{1, 2, 3})
+			return raw.Marshal()
+		})
 		add("sig-sequence+1", func() ([]byte, error) { return mutate(nil, func(s *signing.SignatureV2) { s.Sequence++ }) })
 		add("sig-pubkey", func() ([]byte, error) {
 			return mutate(nil, func(s *signing.SignatureV2) { s.PubKey = attacker.Priv.PubKey() })
